@@ -29,8 +29,9 @@ import (
 )
 
 const (
-	bigLimit = int64(5000)   // "large" limit used for the monitored base run of every case
-	maxGas   = int64(300000) // consensus.MaxGasAmount
+	bigLimit   = int64(5000)   // "large" limit used for the monitored base run of every case
+	smallLimit = int64(600)    // first base limit of the quickBase plans (loops are recognised under it)
+	maxGas     = int64(300000) // consensus.MaxGasAmount
 )
 
 // ---------------------------------------------------------------- alphabet
@@ -206,6 +207,7 @@ type outcome struct {
 	alt      [][]byte
 	v        *viol
 	preamble bool // failed while pushing arguments
+	sameBase bool // behaves like the case's base run (class, instructions, gas consumed, both stacks)
 }
 
 var sentinels = []struct {
@@ -388,7 +390,10 @@ type plan struct {
 	max     bool    // also run under MaxGasAmount (cases that need <= 5000)
 	maxLoop bool    // ... and cases that need more than 5000 (loops), on the empty initial stack
 	verify  bool    // cross-check the driver against vm.Verify
-	family  string
+	// two-stage base run: 600, then 5000 unless the program is looping
+	quickBase bool
+	lean      bool // skip the need+1 run
+	family    string
 }
 
 type caseRec struct {
@@ -414,6 +419,8 @@ type probed struct {
 }
 
 type worker struct {
+	base       *outcome
+	baseL      int64
 	lprog      []byte
 	largs      [][]byte
 	damaged    int
@@ -482,6 +489,11 @@ func (w *worker) run(pl plan, prog []byte, args [][]byte, L int64) outcome {
 	w.runs++
 	w.restore(prog, args)
 	o := runMon(w.ctx, L)
+	if w.base != nil {
+		// compared now: the stack items point into memory that the next run rewrites
+		o.sameBase = same(*w.base, w.baseL, o, L)
+		o.data, o.alt = nil, nil
+	}
 	if o.steps > w.maxSteps {
 		w.maxSteps = o.steps
 	}
@@ -527,13 +539,30 @@ func (w *worker) restore(prog []byte, args [][]byte) {
 func (w *worker) evalCase(pl plan, prog []byte, args [][]byte) {
 	w.cases++
 	w.load(prog, args)
-	base := w.run(pl, prog, args, bigLimit)
+	w.base = nil
+	// base run. Plans with quickBase first try limit 600: a program of <= 4 symbols that is still
+	// running after 64 instructions is looping, and a loop is characterised just as well by 600 gas
+	// as by 5000 (at a tenth of the cost); everything else is re-based on 5000.
+	B := bigLimit
+	var base outcome
+	if pl.quickBase {
+		B = smallLimit
+		base = w.run(pl, prog, args, B)
+		if base.v == nil && base.class == "runlimit" && base.okSteps < 64 {
+			B = bigLimit
+			base = w.run(pl, prog, args, B)
+		}
+	} else {
+		base = w.run(pl, prog, args, B)
+	}
 	base.data, base.alt = deepCopy(base.data), deepCopy(base.alt) // later runs reuse the memory the items point into
+	base.sameBase = true
+	w.base, w.baseL = &base, B
 	w.classes[base.class]++
 	if base.okSteps >= 2 {
 		w.nontrivial++
 		if len(w.samples) < 3 && base.okSteps >= 3 && w.cases%97 == 0 {
-			w.samples = append(w.samples, w.rec(pl, prog, args, bigLimit, base, 0))
+			w.samples = append(w.samples, w.rec(pl, prog, args, B, base, 0))
 		}
 	}
 	if base.unpaid {
@@ -542,7 +571,7 @@ func (w *worker) evalCase(pl plan, prog []byte, args [][]byte) {
 	if pl.verify && base.v == nil {
 		w.verified++
 		w.restore(prog, args)
-		g, err := vm.Verify(w.ctx, bigLimit)
+		g, err := vm.Verify(w.ctx, B)
 		c := classOf(err)
 		if c != base.class || (c != "unexpected" && g != base.gasLeft) {
 			w.infra = fmt.Sprintf("step driver disagrees with vm.Verify on program %x args %x: driver (%s, %d) Verify (%s, %d)", prog, args, base.class, base.gasLeft, c, g)
@@ -559,15 +588,18 @@ func (w *worker) evalCase(pl plan, prog []byte, args [][]byte) {
 	w.limits = limits
 
 	if base.class == "runlimit" {
-		// needs more than bigLimit (a loop, or an expensive program): everything below fails the same way
+		// needs more than B (a loop, or an expensive program): everything below fails the same way
 		w.needMore++
 		for _, L := range limits {
+			if L >= B {
+				continue
+			}
 			r := w.run(pl, prog, args, L)
 			if r.v != nil {
 				return
 			}
 			if r.class != "runlimit" && !r.inherit && !base.inherit {
-				w.report(pl, prog, args, L, r, 0, viol{"succeeds-below-need", fmt.Sprintf("runs out of gas under limit %d but ends with %s under the smaller limit %d", bigLimit, r.class, L)})
+				w.report(pl, prog, args, L, r, 0, viol{"succeeds-below-need", fmt.Sprintf("runs out of gas under limit %d but ends with %s under the smaller limit %d", B, r.class, L)})
 			}
 		}
 		if pl.maxLoop && len(args) == 0 {
@@ -578,23 +610,23 @@ func (w *worker) evalCase(pl plan, prog []byte, args [][]byte) {
 	}
 
 	// locate need g: the least limit under which the run does not end in ErrRunLimitExceeded
-	lo := bigLimit - base.minRun
-	w.probes = append(w.probes[:0], probed{bigLimit, base})
-	probe := func(L int64) outcome {
+	lo := B - base.minRun
+	w.probes = append(w.probes[:0], probed{B, base})
+	probe := func(L int64) *outcome {
 		for i := range w.probes {
 			if w.probes[i].L == L {
-				return w.probes[i].o
+				return &w.probes[i].o
 			}
 		}
 		r := w.run(pl, prog, args, L)
 		w.probes = append(w.probes, probed{L, r})
-		return r
+		return &w.probes[len(w.probes)-1].o
 	}
 	fails := func(L int64) bool { return probe(L).class == "runlimit" }
 	g := lo
 	if fails(lo) {
-		bad, good := lo, bigLimit
-		for inc := int64(1); bad+inc < bigLimit; inc *= 2 {
+		bad, good := lo, B
+		for inc := int64(1); bad+inc < B; inc *= 2 {
 			if !fails(lo + inc) {
 				good = lo + inc
 				break
@@ -636,14 +668,14 @@ func (w *worker) evalCase(pl plan, prog []byte, args [][]byte) {
 		}
 		if L < g {
 			if r.class != "runlimit" {
-				w.report(pl, prog, args, L, r, g, viol{"succeeds-below-need", fmt.Sprintf("needs %d gas (fails with run limit at %d) but ends with %s under limit %d", g, g-1, r.class, L)})
+				w.report(pl, prog, args, L, *r, g, viol{"succeeds-below-need", fmt.Sprintf("needs %d gas (fails with run limit at %d) but ends with %s under limit %d", g, g-1, r.class, L)})
 				return false
 			}
 			return true
 		}
-		if !same(base, bigLimit, r, L) {
-			w.report(pl, prog, args, L, r, g, viol{"differs-above-need", fmt.Sprintf("needs %d gas; under limit %d: %s consumed %d steps %d, under limit %d: %s consumed %d steps %d",
-				g, bigLimit, base.class, bigLimit-base.gasLeft, base.okSteps, L, r.class, L-r.gasLeft, r.okSteps)})
+		if !r.sameBase {
+			w.report(pl, prog, args, L, *r, g, viol{"differs-above-need", fmt.Sprintf("needs %d gas; under limit %d: %s consumed %d steps %d, under limit %d: %s consumed %d steps %d (or the final stacks differ)",
+				g, B, base.class, B-base.gasLeft, base.okSteps, L, r.class, L-r.gasLeft, r.okSteps)})
 			return false
 		}
 		return true
@@ -654,7 +686,7 @@ func (w *worker) evalCase(pl plan, prog []byte, args [][]byte) {
 	if g > 0 && !check(g-1) {
 		return
 	}
-	if !check(g + 1) {
+	if !pl.lean && !check(g+1) {
 		return
 	}
 	for _, L := range limits {
@@ -677,16 +709,18 @@ type unit struct {
 
 func pushNum(n int64) []byte { return exact(vm.Uint64Bytes(uint64(n))...) }
 
+var ballast []byte // never touched (no resident memory); only raises the collector's trigger
+
 func main() {
 	if pf := os.Getenv("VERIF_CPUPROFILE"); pf != "" { // debugging aid
 		f, _ := os.Create(pf)
 		pprof.StartCPUProfile(f)
 		defer pprof.StopCPUProfile()
 	}
-	// the live heap is tiny and the allocation rate huge: collect only when 1 GiB of garbage has
-	// piled up, otherwise the run is dominated by stop-the-world pauses on a loaded machine
-	debug.SetGCPercent(-1)
-	debug.SetMemoryLimit(256 << 20)
+	// the live heap is tiny and the allocation rate huge: a ballast makes the collector run once per
+	// ~200 MB of garbage instead of once per ~4 MB (stop-the-world pauses dominate on a loaded machine)
+	ballast = make([]byte, 200<<20)
+	debug.SetGCPercent(100)
 	run := ev.Start("C07", "exploration")
 	thorough := run.Thorough()
 
@@ -719,11 +753,11 @@ func main() {
 				stacks = stacksZOTH
 			}
 		case n == 3 && !thorough:
-			stacks, pl = stacks6, plan{extras: []int64{0, 1, 40}}
+			stacks, pl = stacks6, plan{extras: []int64{0, 1, 40}, quickBase: true}
 		case n == 3 && thorough:
-			stacks, pl = stacksZOH, plan{extras: []int64{0, 1, 2, 9, 17, 40}, max: true}
+			stacks, pl = stacksZOH, plan{extras: []int64{0, 1, 40}, max: true, quickBase: true}
 		default:
-			stacks, pl = stacks2, plan{}
+			stacks, pl = stacks2, plan{quickBase: true, lean: true}
 		}
 		pl.family = fmt.Sprintf("F1/len%d", n)
 		curFamily = pl.family
@@ -750,7 +784,7 @@ func main() {
 					}
 					if n == 3 && thorough && k%8 == 0 {
 						// (thorough) a full low-limit sweep on a rotating eighth of the 3-symbol programs
-						ps := plan{sweep: 41, family: pl.family + "/sweep"}
+						ps := plan{sweep: 41, family: pl.family + "/sweep", quickBase: true}
 						for _, st := range stacks6 {
 							w.evalCase(ps, prog, st)
 						}
